@@ -18,6 +18,9 @@ EXPLANATION = (
     "implies that the helper set all three; R4 tie and empty rejection -- a read gets a haplotype only if it has scores and best - second != 0, best/second are indices 0/1 of a "
     "descending sort, the stored tuple (haplotype, quality, phaseset) is unpacked in the same order where HP = haplotype + 1, PC = quality, PS = phaseset are written."
 )
+EXPLANATION += (
+    " " + 'R3 also: the decision table of ignore_read over (is_unmapped, is_secondary, is_supplementary, tag_supplementary), obtained by abstractly interpreting its if/elif chain over all 16 valuations, equals unmapped or secondary or (supplementary and not tag_supplementary); R4 also: the three results of prepare_haplotag_information are created before the sample loop and never re-created inside a loop.'
+)
 NOT_DECIDED = "Score accumulation values, htslib output bytes, overlapping user regions (an alignment inside two requested regions is fetched twice)."
 ASSUMPTIONS = ["pysam: set_tag(tag, None) removes the tag", "bam_reader.fetch(contig=c, start, stop) yields every alignment overlapping the region once"]
 
@@ -69,16 +72,16 @@ def r1(ctx):
         kind = None
         anc = c
         in_handler = None
-        conds = []
         while anc is not None and anc is not cl:
             if isinstance(anc, ast.ExceptHandler):
                 in_handler = u(anc.type) if anc.type is not None else "*"
-            if isinstance(anc.parent, ast.If) and anc in anc.parent.body:
-                conds.append(u(anc.parent.test))
             anc = anc.parent
-        if in_handler == "VcfInvalidChromosome" and "skip_missing_contigs" in conds:
+        ga = {(t, p_) for t, p_ in guard_atoms(cfg, cfg.node_of(c)) if not t.startswith("<iter>")}
+        conds = sorted("%s%s" % ("" if p_ else "not ", t) for t, p_ in ga)
+        chromv = u(cl.target.elts[0]) if isinstance(cl.target, ast.Tuple) else u(cl.target)
+        if in_handler == "VcfInvalidChromosome" and ("skip_missing_contigs", True) in ga:
             kind = "contig missing from the VCF and --skip-missing-contigs given (documented: those reads are skipped)"
-        elif in_handler is None and any(cc.replace(" ", "") == "%snotinhas_alignments" % u(cl.target.elts[0]) for cc in conds):
+        elif in_handler is None and ("%s in has_alignments" % chromv, False) in ga:
             kind = "no alignment on this chromosome"
         ctx.ob(run.qual, "chromosome-skip:%s" % ";".join(conds + ([in_handler] if in_handler else [])), kind is not None, run.loc(c), "chromosome skipped only because: %s" % kind if kind else "a chromosome (and all its alignments) is skipped under an undocumented condition")
     exits = [e for e in util.lexical_loop_exits(cl) if not any(e in list(ast.walk(l)) for l in loops)]
@@ -196,6 +199,19 @@ def r3(ctx):
             doms = [d for d in _set_tag_nodes(hcfg, hal, tag) if hcfg.dominates(d, a)]
             ok = bool(doms)
             ctx.ob(h.qual, "tagged-implies-set:%s@%s" % (tag, hcfg.line(a) - h.node.lineno), ok, h.loc(hcfg.ast(a)), "is_tagged = 1 is dominated by set_tag(%r, ...)" % tag if ok else "a read can be reported as tagged without its %s tag having been set" % tag)
+    # which alignments may be tagged at all: decision table of ignore_read over its four flags
+    ig = ctx.func(MOD + ".ignore_read")
+    ap, tp = util.params_of(ig.node)[:2]
+    flags = ["%s.is_unmapped" % ap, "%s.is_secondary" % ap, "%s.is_supplementary" % ap, tp]
+    try:
+        from rules.common import boolean_truth_table
+
+        table = boolean_truth_table(ig.node, flags)
+        wrong = [vals for vals, out in sorted(table.items()) if out != (vals[0] or vals[1] or (vals[2] and not vals[3]))]
+        why = "ignore_read(%s) returns %s" % (", ".join("%s=%s" % (f.split(".")[-1], v) for f, v in zip(flags, wrong[0])), table[wrong[0]]) if wrong else ""
+    except ValueError as e:
+        wrong, why = [None], "ignore_read is no longer a pure decision over %s (%s)" % (flags, e)
+    ctx.ob(ig.qual, "only-mapped-primary-or-requested-supplementary-alignments-are-tagged", not wrong, ig.loc(), "over all 16 flag combinations ignore_read == unmapped or secondary or (supplementary and not tag_supplementary)" if not wrong else why + ": an alignment that must stay untagged gets the tags of a read of the same name (or the other way round)")
     rets = [n for n in walk_function(h.node) if isinstance(n, ast.Return)]
     ok = bool(rets) and all(isinstance(r.value, ast.Tuple) and u(r.value.elts[0]) == "is_tagged" for r in rets)
     ctx.ob(h.qual, "returns-is_tagged-first", ok, h.loc(), "the helper returns is_tagged as first value" if ok else "the helper does not return is_tagged first")
@@ -255,6 +271,13 @@ def r4(ctx):
             unpack = [u(e) for e in n.targets[0].elts]
             key = u(n.value.slice)
     ok = stored == ["first_ht", "quality", "phaseset"] and unpack == ["haplotype", "quality", "phaseset"]
+    # the three results are accumulated over ALL samples: none of them is re-created inside a loop
+    rets_p = [n for n in walk_function(fi.node) if isinstance(n, ast.Return) and isinstance(n.value, ast.Tuple)]
+    ctx.require(len(rets_p) == 1, "prepare_haplotag_information no longer returns one tuple")
+    for e in rets_p[0].value.elts:
+        if isinstance(e, ast.Name):
+            inside = util.rebinds_inside_loops(fi.node, e.id)
+            ctx.ob(fi.qual, "result-spans-all-samples:%s" % e.id, not inside, fi.loc(inside[0][0]) if inside else fi.loc(rets_p[0]), "%s is created once, before the sample loop, and only added to afterwards" % e.id if not inside else "%s is re-created inside `for %s in ...`: what earlier samples (iterations) contributed is lost, their reads stay untagged" % (e.id, u(inside[0][1].target) if isinstance(inside[0][1], ast.For) else "while"))
     ctx.ob(h.qual, "tuple-layout-agrees", ok, h.loc(), "stored (haplotype, quality, phaseset) is unpacked in the same order" if ok else "stored tuple %s vs unpacked %s" % (stored, unpack))
     okk = unpack is not None and key == "%s.query_name" % util.params_of(h.node)[0] and u(st.target.slice).endswith(".name")
     ctx.ob(h.qual, "looked-up-by-read-name", okk, h.loc(), "the assignment is stored under the read's name and looked up by the alignment's query_name" if okk else "store key / lookup key are not read name / query_name")
